@@ -143,6 +143,22 @@ Section C01.
     exact (no_truncated_delivery name arg frame enc dstate d0 dec_step
              C09_codec_roundtrip C09_codec_silent_prefix).
   Qed.
+
+  (** Beyond the limit (the part of the property's quantifier outside [within_limits]): a send the
+      receiver refuses closes the connection - the complete packets carried by the sends before it
+      are delivered, a packet cut by the refusal yields nothing, nothing sent afterwards arrives. *)
+  Theorem C01_rejected_send_closes_partial :
+    forall evs1 p batches1 bad batches2,
+      concat batches1 = flat_map enc evs1 ++ p ->
+      (p = [] \/ exists e s, enc e = p ++ s /\ s <> []) ->
+      Forall (fun b => accepts (pack b) = true) batches1 ->
+      accepts (pack bad) = false ->
+      parsed (batches1 ++ bad :: batches2) = evs1.
+  Proof.
+    exact (rejected_send_cuts name arg frame enc dstate d0 dec_step C09_codec_roundtrip
+             C09_codec_silent_prefix frame_ok C09_enc_frames_ok wunit pack unpack
+             C11_framing_roundtrip accepts link link_fifo).
+  Qed.
 End C01.
 
 (** * Instance: the hypotheses are satisfiable, the composition is not vacuous. *)
